@@ -71,6 +71,8 @@ type Store struct {
 	FailAddAt int
 	// FailAddOnly, when >0, makes exactly the k-th (1-based) Add call fail with ErrIO (a transient write error).
 	FailAddOnly int
+	// FailAddCount: how many consecutive Add calls fail from FailAddOnly on (0 means 1)
+	FailAddCount int
 	// FailPinOnce makes the next Pin().Add fail with ErrIO.
 	FailPinOnce bool
 	addCalls    int
@@ -180,7 +182,7 @@ func (d dagSvc) Add(ctx context.Context, n format.Node) error {
 		s.Hooks.Access("blk:"+n.Cid().KeyString(), true)
 	}
 	s.addCalls++
-	if s.FailAddOnly > 0 && s.addCalls == s.FailAddOnly {
+	if s.FailAddOnly > 0 && s.addCalls >= s.FailAddOnly && s.addCalls < s.FailAddOnly+maxInt(1, s.FailAddCount) {
 		s.note(Call{Op: "add", Cid: n.Cid(), OK: false})
 		return ErrIO
 	}
@@ -335,3 +337,10 @@ func (s *Store) Gets() []cid.Cid {
 
 // ResetCalls forgets the recorded calls (not the blocks).
 func (s *Store) ResetCalls() { s.Calls = nil }
+
+func maxInt(a, b int) int {
+	if a > b {
+		return a
+	}
+	return b
+}
